@@ -97,6 +97,49 @@ struct Params
     bool on(const char* p) const { return active.count(p) != 0; }
 };
 
+// optional-like holder that can also DEFAULT-initialise its object (`T x;`, not `T x{}`) in storage that was filled
+// with junk before, so that members a defaulted constructor leaves indeterminate are visible as junk
+template <class T>
+struct Slot
+{
+    alignas(T) unsigned char buf[sizeof(T)];
+    bool engaged = false;
+    Slot() { std::memset(buf, 0xCD, sizeof buf); }
+    Slot(const Slot&) = delete;
+    Slot& operator=(const Slot&) = delete;
+    ~Slot() { reset(); }
+    template <class... A>
+    T& emplace(A&&... a)
+    {
+        reset();
+        std::memset(buf, 0xCD, sizeof buf);
+        T* p = ::new (static_cast<void*>(buf)) T(std::forward<A>(a)...);
+        engaged = true;
+        return *p;
+    }
+    T& emplace_default_initialized()
+    {
+        reset();
+        std::memset(buf, 0xCD, sizeof buf);
+        T* p = ::new (static_cast<void*>(buf)) T;
+        engaged = true;
+        return *p;
+    }
+    void reset()
+    {
+        if (engaged)
+        {
+            engaged = false;
+            reinterpret_cast<T*>(buf)->~T();
+        }
+    }
+    explicit operator bool() const { return engaged; }
+    T& operator*() { return *reinterpret_cast<T*>(buf); }
+    const T& operator*() const { return *reinterpret_cast<const T*>(buf); }
+    T* operator->() { return reinterpret_cast<T*>(buf); }
+    const T* operator->() const { return reinterpret_cast<const T*>(buf); }
+};
+
 // what attribution needs to know about the transition that produced a violation
 struct Ctx
 {
@@ -138,9 +181,9 @@ struct Engine
         int arena = 0;
     };
 
-    std::optional<Vec> v[2];
+    Slot<Vec> v[2];
     VM m[2];
-    std::optional<El> x[3];
+    Slot<El> x[3];
     XM xm[3];
     Params prm;
 
@@ -409,7 +452,7 @@ struct Engine
             }
             case O_DEF:
             {
-                LIB(v[t].emplace());
+                LIB(v[t].emplace_default_initialized());  // `Vec v;`
                 m[t] = VM{};
                 m[t].present = true;
                 m[t].fixed.assign(LS::NF, 0);
